@@ -125,6 +125,8 @@ def _case(draw, tier):
         "ctor_rename": draw(st.booleans()) and kind in ("func", "ifelse", "route", "interrupt"),
         "inner_bind": draw(st.integers(0, n_in - 1)) if kind in ("graph", "mapgraph") and draw(st.booleans()) else None,
         "supply": [draw(st.booleans()) for _ in range(n_in)],
+        "emit_renamed": draw(st.booleans()),  # func / interrupt / gate: an emit signal renamed through with_outputs, with a waiter on the new name
+        "rerun_receiver": draw(st.booleans()),  # after all derivations the ORIGINAL node object is run again under its own names
         "map_when": draw(st.integers(0, 6)),
         "map_param": draw(st.integers(0, n_in - 1)),
         "map_mode": draw(st.sampled_from(["zip", "product"])),
@@ -149,6 +151,8 @@ def _spec(case):
     ann = {p: f"T{i}" for i, p in enumerate(params)}
     kind = case["kind"]
     base = {"name": "nd0", "params": params, "defaults": defaults, "ann": ann}
+    if case.get("emit_renamed") and kind in ("func", "interrupt", "ifelse", "route"):
+        base["emit"] = ["sig_e"]
     if kind == "func":
         return {**base, "k": "func", "outs": OPOOL[:n_out]}
     if kind == "interrupt":
@@ -307,7 +311,13 @@ def _part_a(case, ev):
             return nd.map_over(cur[slot_orig.index(mapped_pos)], mode=case["map_mode"])
         return nd
 
+    node0, cur_in0 = node, list(cur_in)
     node, cur_in, cur_out, name, interesting = _run_history(node, case2, cur_in, cur_out, labels, on_step)
+    waiter = None
+    if case.get("emit_renamed") and "sig_e" in getattr(node, "outputs", ()):
+        node = node.with_outputs({"sig_e": "sig_r"})
+        waiter = make_node(ctx, {"k": "func", "name": "waiter", "params": [], "defaults": {}, "outs": ["w_out"], "wait_for": ["sig_r"]}, "sync")
+        labels.add("emit_renamed_with_waiter")
     if kind == "mapgraph" and mapped_pos is None:
         cands = [j for j in range(n_in) if j not in defaults_by_pos and j != bound_pos] or [0]
         mapped_pos = cands[case["map_param"] % len(cands)]
@@ -330,10 +340,10 @@ def _part_a(case, ev):
     want_args = tuple(supplied.get(cur_of_pos[pos], eff_defaults.get(pos)) for pos in range(n_in))
     if kind in ("ifelse", "route"):
         extra = [make_node(ctx, {"k": "func", "name": t, "params": [], "defaults": {}, "outs": [f"o_{t}"]}, "sync") for t in ("ta", "tb")]
-        g = Graph([node, *extra])
+        g = Graph([node, *extra] + ([waiter] if waiter is not None else []))
         out = run_sync(g, supplied)
     elif kind == "interrupt":
-        g = Graph([node])
+        g = Graph([node] + ([waiter] if waiter is not None else []))
         out = run_async(g, supplied)
     elif kind == "mapgraph":
         items = [("item", j) for j in range(case["nitems"])]
@@ -341,10 +351,12 @@ def _part_a(case, ev):
         g = Graph([node])
         out = run_sync(g, supplied)
     else:
-        g = Graph([node])
+        g = Graph([node] + ([waiter] if waiter is not None else []))
         out = run_sync(g, supplied)
     if out.status != "completed":
         raise Violation("c06.run_failed", f"[{kind}] run with {J(supplied)} gave {out.brief()}; inputs={cur_in} history={J(hist)}", kind_of_node=kind)
+    if waiter is not None and not ctx.calls("waiter"):
+        raise Violation("c06.renamed_signal_not_produced", f"[{kind}] the node's signal was renamed sig_e -> sig_r; a node waiting for 'sig_r' never ran (result {J(out.values)})", kind_of_node=kind)
     calls = ctx.calls(fid)
     if kind == "mapgraph":
         items = supplied[cur_of_pos[mapped_pos]]
@@ -363,12 +375,23 @@ def _part_a(case, ev):
             for j, o in enumerate(cur_out[:n_out]):
                 if out.values.get(o) != (fid, j, want_args):
                     raise Violation("c06.output_value", f"[{kind}] output {o!r} = {J(out.values.get(o))}, expected {J((fid, j, want_args))}; outputs={cur_out} history={J(hist)}", kind_of_node=kind)
-            extra_keys = set(out.values) - set(cur_out) - set(supplied)
+            extra_keys = set(out.values) - set(cur_out) - set(supplied) - {"w_out"}
             if extra_keys:
                 raise Violation("c06.stale_output_name", f"[{kind}] result has names {sorted(extra_keys)} that are not current outputs {cur_out}")
         if kind == "interrupt":
             if out.values.get(cur_out[0]) != ("answer",):
                 raise Violation("c06.output_value", f"[interrupt] {J(out.values)} expected answer under {cur_out[0]!r}", kind_of_node=kind)
+    # ---- the receiver of all those derivations, run under ITS names: nothing of the history may have reached it
+    if case.get("rerun_receiver") and kind in ("func", "graph") and hist:
+        cur0 = {slot_orig[i]: cur_in0[i] for i in range(n_in)}
+        sup0 = {cur0[pos]: ("val0", pos) for pos in range(n_in) if pos not in eff_defaults or case["supply"][pos]}
+        want0 = tuple(sup0.get(cur0[pos], eff_defaults.get(pos)) for pos in range(n_in))
+        ctx.reset()
+        out0 = run_sync(Graph([node0]), sup0)
+        calls0 = ctx.calls(fid)
+        if out0.status != "completed" or not calls0 or calls0[-1] != want0:
+            raise Violation("c06.receiver_behaviour_changed", f"[{kind}] after the history {J(hist)} the ORIGINAL node (inputs {cur_in0}) run with {J(sup0)} gave {out0.brief()} / calls {J(calls0)}, expected arguments {J(want0)}", kind_of_node=kind)
+        labels.add("receiver_rerun")
     ev.case(case, interesting, sorted(labels))
 
 
